@@ -1,6 +1,6 @@
 use std::{fmt::Debug, time::Duration};
 
-use bytes::{BufMut, BytesMut};
+use bytes::{Buf, BufMut, Bytes, BytesMut};
 use if_chain::if_chain;
 use tokio::{
     io::{AsyncRead, AsyncReadExt, AsyncWrite, AsyncWriteExt},
@@ -31,6 +31,10 @@ pub struct Framed {
     codec: Codec,
     buffer: BytesMut,
     verify_version: bool,
+    // A keepalive that has been taken out of the buffer, and what is left to send of its reply.
+    // It lives here rather than in the `read` future so that dropping a pending `read` (i.e. in a
+    // select loop) neither loses the packet nor leaves half a reply on the wire.
+    unanswered: Option<(Packet, Bytes)>,
 }
 
 impl Framed {
@@ -43,6 +47,7 @@ impl Framed {
             codec,
             buffer,
             verify_version: false,
+            unanswered: None,
         }
     }
 
@@ -92,6 +97,12 @@ impl Framed {
     /// Asynchronously wait for a packet from the inner network.
     pub async fn read(&mut self) -> Result<Packet> {
         loop {
+            // finish answering a keepalive first, then hand it over
+            self.flush_reply().await?;
+            if let Some((packet, _)) = self.unanswered.take() {
+                return Ok(packet);
+            }
+
             if_chain! {
                 if !self.buffer.is_empty();
                 if let Some(packet) = self.codec.decode(&mut self.buffer)?;
@@ -104,7 +115,9 @@ impl Framed {
                     // keepalive
                     if let Some(pong) = packet.maybe_pong() {
                         tracing::debug!("Ping? Pong!");
-                        self.write(pong).await?;
+                        let reply = self.codec.encode(&pong)?;
+                        self.unanswered = Some((packet, reply));
+                        continue;
                     }
 
                     return Ok(packet);
@@ -136,8 +149,23 @@ impl Framed {
         }
     }
 
+    /// Send whatever is left of a pending keepalive reply. Progress is kept in `self`, so this may
+    /// be dropped and called again.
+    async fn flush_reply(&mut self) -> Result<()> {
+        if let Some((_, reply)) = self.unanswered.as_mut() {
+            if reply.has_remaining() {
+                self.inner.write_all_buf(reply).await?;
+            }
+        }
+
+        Ok(())
+    }
+
     /// Asynchronously write a packet to the inner network.
     pub async fn write<P: Into<Packet>>(&mut self, packet: P) -> Result<()> {
+        // never interleave a packet with a half sent keepalive reply
+        self.flush_reply().await?;
+
         let mut buf = self.codec.encode(&packet.into())?;
         if !buf.is_empty() {
             self.inner.write_all_buf(&mut buf).await?;
